@@ -160,7 +160,7 @@ def run_check(mod, pid, tier, seed, replay=None):
     # 2-4. correspondence + oracle (module specific)
     harness_error = None
     try:
-        if replay:
+        if replay and hasattr(mod, "replay"):
             mod.replay(ctx, json.load(open(replay)))
         else:
             mod.run(ctx)
@@ -284,6 +284,11 @@ def main(argv):
     ap.add_argument("--replay")
     a = ap.parse_args(argv)
     seed = int(os.environ.get("VERIF_SEED", "20260921"))
+    if a.replay:
+        # a replay re-runs the check with the recorded seed and tier: every random choice derives from
+        # them, so the recorded case is regenerated bit-identically (modules may add a direct replay)
+        rec = json.load(open(a.replay))
+        seed, a.tier = int(rec.get("seed", seed)), rec.get("tier", a.tier)
     sys.path.insert(0, REPO)
     import logging
     logging.disable(logging.CRITICAL)
